@@ -62,12 +62,16 @@ def _run_cli(cmd, smt2, timeout):
             pass
 
 
+CVC5_FIRST_AFTER = float(os.environ["QV_CVC5_FIRST"]) if os.environ.get("QV_CVC5_FIRST") else None      # seconds; when set (by a case, for its duration) a query z3 has not answered by then goes to cvc5 before z3 gets its full budget
+
+
 def check_sat(constraints, timeout_s=20.0, logic=None, want_model=True, fallback=True, tactic=None):
     """Satisfiability of the conjunction `constraints` (list of z3 BoolRef). Returns Verdict-like
     tuple (answer in {'sat','unsat','unknown'}, backend, secs, model dict|None, smt2 text)."""
     t0 = time.time()
     s = z3.Solver() if tactic is None else z3.Tactic(tactic).solver()
-    s.set("timeout", int(timeout_s * 1000))
+    staged = CVC5_FIRST_AFTER is not None and fallback and timeout_s > CVC5_FIRST_AFTER and os.path.exists("/usr/bin/cvc5")
+    s.set("timeout", int((CVC5_FIRST_AFTER if staged else timeout_s) * 1000))
     for c in constraints:
         s.add(c)
     try:
@@ -76,6 +80,26 @@ def check_sat(constraints, timeout_s=20.0, logic=None, want_model=True, fallback
         r = z3.unknown
     secs = time.time() - t0
     smt2 = None
+    if staged and r == z3.unknown:
+        # families of queries on which cvc5 answers in seconds where z3 needs its whole budget (opt-in per case): ask cvc5 next, then z3 again in full
+        smt2 = s.to_smt2()
+        ans, dt = _run_cli(["/usr/bin/cvc5", f"--tlimit={int(timeout_s*1000)}"], smt2, timeout_s)
+        secs += dt
+        if ans in ("sat", "unsat"):
+            return ans, "cvc5-1.0.3", secs, None, smt2
+        t1 = time.time()
+        s.set("timeout", int(timeout_s * 1000))
+        try:
+            r = s.check()
+        except z3.Z3Exception:
+            r = z3.unknown
+        secs += time.time() - t1
+        if r == z3.unknown:
+            ans, dt = _run_cli(["/usr/bin/z3", f"-T:{int(timeout_s)}"], smt2, timeout_s)
+            secs += dt
+            if ans in ("sat", "unsat"):
+                return ans, "z3-4.8.12", secs, None, smt2
+            return "unknown", "z3-5.1(api)+cvc5+z3-4.8", secs, None, smt2
     if r == z3.unsat:
         return "unsat", "z3-5.1(api)", secs, None, smt2
     if r == z3.sat:
